@@ -17,14 +17,14 @@ CfgsQuick ==
   {Mk(2, f, <<>>, -1, B(FALSE, 1, 2, 2, 1, 1, 1, TRUE, TRUE, TRUE)) : f \in Feats}
   \cup {Mk(2, f, <<1>>, -1, B(FALSE, 1, 1, 2, 1, 1, 1, FALSE, FALSE, FALSE)) : f \in Feats}
   \cup {Mk(3, "std", <<>>, -1, B(FALSE, 1, 1, 1, 0, 1, 1, FALSE, FALSE, FALSE))}
-  \cup {Mk(2, f, <<>>, x, B(FALSE, 1, 1, 1, 0, 1, 0, FALSE, FALSE, FALSE)) : f \in Feats, x \in {0, 1}}
+  \cup {Mk(2, f, <<>>, x, B(FALSE, 1, 2, 1, 0, 1, 0, FALSE, FALSE, FALSE)) : f \in Feats, x \in {0, 1}}
   \cup {Mk(n, f, <<>>, -1, B(FALSE, 1, 1, 1, 0, 1, 1, TRUE, FALSE, FALSE)) : f \in Feats, n \in {0, 1}}
 
 CfgsThorough ==
   CfgsQuick \cup
   {Mk(2, f, nv, -1, B(FALSE, 2, 2, 3, 1, 1, 2, TRUE, TRUE, TRUE)) : f \in Feats, nv \in {<<>>, <<0>>}}
   \cup {Mk(3, f, nv, -1, B(FALSE, 1, 2, 2, 1, 1, 1, TRUE, FALSE, FALSE)) : f \in Feats, nv \in {<<>>, <<1>>}}
-  \cup {Mk(3, f, <<>>, x, B(FALSE, 1, 1, 2, 0, 1, 1, FALSE, FALSE, FALSE)) : f \in Feats, x \in {0, 1, 2}}
+  \cup {Mk(3, f, <<>>, x, B(FALSE, 1, 3, 1, 0, 1, 0, FALSE, FALSE, FALSE)) : f \in Feats, x \in {0, 1, 2}}
   \cup {Mk(4, "std", <<>>, -1, B(FALSE, 1, 1, 1, 0, 1, 0, FALSE, FALSE, FALSE))}
 
 CfgsGenQ ==
@@ -40,7 +40,8 @@ CfgsGen ==
   \cup {Mk(n, f, <<>>, -1, B(TRUE, 1, 1, 1, 0, 1, 1, TRUE, FALSE, FALSE)) : f \in Feats, n \in {0, 1}}
 
 CfgsLiveQ == {Mk(2, f, <<>>, -1, B(FALSE, 1, 1, 1, 1, 1, 1, FALSE, FALSE, FALSE)) : f \in Feats}
-CfgsLive == {Mk(n, f, <<>>, -1, B(FALSE, 1, 2, 1, 1, 1, 1, FALSE, FALSE, FALSE)) : f \in Feats, n \in {2, 3}}
+CfgsLive == {Mk(2, f, <<>>, -1, B(FALSE, 1, 2, 1, 1, 1, 1, FALSE, FALSE, FALSE)) : f \in Feats}
+            \cup {Mk(3, f, <<>>, -1, B(FALSE, 1, 1, 1, 0, 0, 0, FALSE, FALSE, FALSE)) : f \in Feats}
 
 ExportOK == ExportEnd => PrintT("VEC " \o ToJson([cfg |-> cfg, hist |-> hist']))
 =============================================================================
